@@ -207,3 +207,19 @@ Proof.
   intro H. destruct wf_rejected_string_equality as [Hwf Hv].
   apply wf_dec_correct in Hwf. rewrite (H _ Hwf) in Hv. discriminate.
 Qed.
+
+Lemma c11_guard_inhabited :
+  wf_dec w_good_small = true /\ c11_guard w_good_small = true /\ crash_free w_good_small = true
+  /\ sh_string_eq w_good_small = false.
+Proof. vm_compute. repeat split; reflexivity. Qed.
+
+Lemma c11_witnesses_outside_guard :
+  c11_guard w_D20_string_equality = false /\ c11_guard w_D20_parenthesised_string_operand = false
+  /\ c11_guard w_D11a_array_element_in_guard = false /\ c11_guard w_D11c_primitive_array_element = false
+  /\ c11_guard w_array_element_as_condition = false.
+Proof. vm_compute. repeat split; reflexivity. Qed.
+
+Lemma wf_rejected_parenthesised_string :
+  wf_dec w_D20_parenthesised_string_operand = true
+  /\ validate w_D20_parenthesised_string_operand = Ok [(KCmpTypes, CStmt 0 [1])].
+Proof. vm_compute. split; reflexivity. Qed.
